@@ -337,11 +337,12 @@ cdef class cyConstrainedQuadraticModel:
 
         if self.cppcqm.vartype(vi) == cppVartype.BINARY and assignment:
             # we may be affecting discrete constraints, so let's update the markers
+            # dev note: we don't assign the constraint to a local variable because
+            # that would make a copy
             for i in range(self.cppcqm.num_constraints()):
-                constraint = self.cppcqm.constraint_ref(i)
-
-                if constraint.marked_discrete() and constraint.has_variable(vi):
-                    constraint.mark_discrete(False)
+                if (self.cppcqm.constraint_ref(i).marked_discrete()
+                        and self.cppcqm.constraint_ref(i).has_variable(vi)):
+                    self.cppcqm.constraint_ref(i).mark_discrete(False)
 
         self.cppcqm.fix_variable(vi, assignment)
         self.variables._remove(v)
